@@ -96,3 +96,6 @@ pub assume_specification<T: PartialEq> [ <[T]>::contains ] (s: &[T], x: &T) -> (
 pub assume_specification<T: Ord> [ core::cmp::min ] (a: T, b: T) -> T;
 #[verifier::external_body]
 pub fn v_min_usize(a: usize, b: usize) -> (r: usize) ensures r == (if a <= b { a } else { b }) { core::cmp::min(a, b) }
+// R1: println!(..) -> vprint(): output text is not verified
+#[verifier::external_body]
+pub fn vprint() { }
